@@ -646,7 +646,10 @@ def check_eq_cmp(ctx, f, cfg, V):
         fam = f.family(body)
         for name, v in V.items():
             if name not in arms:
-                ctx.ob(rule, "%s:covers:%s" % (what, name), False, "[%s] no arm for %s" % (cfg, name), where(body))
+                # a fieldless variant may legitimately be handled by a catch-all (its behaviour is decided by the
+                # pair evaluation above); a container must have its own arm to look at its children
+                if v["fields"]:
+                    ctx.ob(rule, "%s:covers:%s" % (what, name), False, "[%s] no arm for container %s" % (cfg, name), where(body))
                 continue
             blocks = arm_blocks(body, arms, other, name)
             if what == "hash":
@@ -684,8 +687,10 @@ def check_eq_cmp(ctx, f, cfg, V):
     for name, t in tags.items():
         by_tag.setdefault(t, []).append(name)
     shared = sorted(v for v in by_tag.values() if len(v) > 1)
-    ctx.ob("HASH", "hash:tags-distinct", not shared and len(tags) == len(V),
-           "[%s] %s" % (cfg, "the %d variants feed %d distinct tags" % (len(V), len(by_tag)) if not shared else "variants sharing a tag: %s" % shared), where(hs))
+    ctx.ob("HASH", "hash:tags-distinct", not shared,
+           "[%s] %s" % (cfg, "%d of %d variants have an arm of their own; they feed %d distinct tags" % (len(tags), len(V), len(by_tag))
+                        if not shared else "variants sharing a tag: %s" % shared), where(hs))
+    ctx.floor("HASH", "variant arms with a tag in hash", len(tags), 4)
 
 
 # ------------------------------------------------------------------------------------- GRAMMAR / LIMITS
